@@ -3,6 +3,8 @@
 package generator
 
 import (
+	"math"
+
 	"github.com/atombender/go-jsonschema/internal/zzvrt"
 	"github.com/atombender/go-jsonschema/pkg/schemas"
 )
@@ -43,6 +45,43 @@ func zzGenerate(pt *schemas.Type, required bool, viaRef bool, cfg Config) (src s
 		}
 	}
 	return src, g.getRootTypeName(sch, "root.json"), nil
+}
+
+// zzIntInterval: smallest and largest integer admitted by the bounds of s (as float64).
+func zzIntInterval(s *zzSpec) (float64, float64) {
+	inf := math.Inf(1)
+	lo, hi := -inf, inf
+	strict := func(e *any) bool {
+		if e != nil {
+			if b, ok := (*e).(bool); ok {
+				return b
+			}
+		}
+		return false
+	}
+	if s.min != nil {
+		c := math.Ceil(*s.min)
+		c = zzvrt.IteF(strict(s.exMin), math.Floor(*s.min)+1, c)
+		lo = zzvrt.IteF(c > lo, c, lo)
+	}
+	if s.exMin != nil {
+		if f, ok := (*s.exMin).(float64); ok {
+			c := math.Floor(f) + 1
+			lo = zzvrt.IteF(c > lo, c, lo)
+		}
+	}
+	if s.max != nil {
+		c := math.Floor(*s.max)
+		c = zzvrt.IteF(strict(s.exMax), math.Ceil(*s.max)-1, c)
+		hi = zzvrt.IteF(c < hi, c, hi)
+	}
+	if s.exMax != nil {
+		if f, ok := (*s.exMax).(float64); ok {
+			c := math.Ceil(f) - 1
+			hi = zzvrt.IteF(c < hi, c, hi)
+		}
+	}
+	return lo, hi
 }
 
 // HarnessL3: the whole generator on a symbolic schema, the emitted program on a symbolic
@@ -86,7 +125,14 @@ func HarnessL3() {
 	}
 	zzvrt.Check("C01.L3.emitted-code-compiles", true)
 	zzvrt.Check("C01.L3.gofmt-stable", zzvrt.S2FmtStable(h))
-	zzvrt.Check("C01.L3.literals-fit", zzvrt.S2Fits(h))
+	// Recorded finding: with --min-sized-ints and bounds that admit no integer at all, a bound
+	// literal may lie outside the (arbitrarily narrow) type that was chosen.
+	emptyDev := zzvrt.Dev{Name: "minsized-literal-overflow-on-empty-interval", Cond: false}
+	if cfg.MinSizedInts && ps.kind == "integer" {
+		lo, hi := zzIntInterval(ps)
+		emptyDev.Cond = hi < lo
+	}
+	zzvrt.Check("C01.L3.literals-fit", zzvrt.S2Fits(h), emptyDev)
 
 	d := zzvrt.NewDoc()
 	zzTypeCorrectObject(d)
